@@ -18,6 +18,12 @@ func resetR1(c *Ctx, fn *ssa.Function, recvIdx int, exempt map[string]string) in
 	res := reset.Analyze(p, fn, recvIdx)
 	fname := core.FuncName(fn)
 	if len(res.Returns) == 0 {
+		if hs := newHelpers(fn); len(hs) > 0 {
+			// the decoding goes through a new helper the must-write analysis does not follow to a success return
+			r.Infof("RESET.R1 %s: not decided — no success return found; the function was restructured around new helper(s) (%s)", fname, core.FuncName(hs[0]))
+			c.resetUndecided++
+			return 0
+		}
 		r.Fatalf("%s: no success return found by RESET", fname)
 		return 0
 	}
